@@ -27,10 +27,13 @@ R.canaries.append(("haplotag.py:canary#supplementary-always-ignored", canary))
 # `fetched` is the sequence bam_reader.fetch(...) yields (ghost name).  An alignment is an object with its flags and its tag map; set_tag(t, None)
 # removes the tag, set_tag(t, v) sets it; nothing else of an alignment is ever assigned (frame by construction of the model).  The writer keeps the
 # sequence of alignments written; writing freezes the alignment (modifying it afterwards would not reach the output).  The haplotag-list writer is a
-# line-sequence file.  attempt_add_phase_information contains try/except (outside the supported subset): used through an ASSUMED contract.
+# line-sequence file.  attempt_add_phase_information (try/except KeyError) is verified against its own contract below and used here through it;
+# ASSIGNABLE(a) is the ghost name of 'a has its own assignment or a read cloud of its barcode starts within the cutoff', fixed on entry.
 import z3  # noqa: E402
 
-R.declare_class("Alignment", {"is_unmapped": BOOL, "is_secondary": BOOL, "is_supplementary": BOOL, "tags": DICT(INT, INT), "frozen": BOOL, "query_name": INT})
+R.declare_class("Alignment", {"is_unmapped": BOOL, "is_secondary": BOOL, "is_supplementary": BOOL, "tags": DICT(INT, INT), "frozen": BOOL, "query_name": INT,
+                              "reference_start": INT})
+T3 = TUPLE(INT, INT, INT)
 R.declare_class("BamWriter", {"written": LIST(REF("Alignment"))})
 R.declare_class("ListFile", {"lines": LIST(INT)})
 ROW4 = z3.Function("HAPLOTAG_ROW", *([z3.IntSort()] * 5))
@@ -50,7 +53,33 @@ class AlignmentModel:
             else:
                 eng.store_field(st, obj, "tags", VDict(INT, INT, z3.Store(t.dom, k, True), z3.Store(t.map, k, to_z3(v))))
             return NONE
+        if name == "get_tag" and len(args) == 1:
+            t = eng.load_field(st, obj, "tags")
+            k = eng.key_of(args[0])
+            eng.oblige(st, "noexc", t.dom[k], "KeyError-tag")
+            return t.map[k]
         return NotImplemented
+
+
+class CloudMap(VModel):
+    """BX_tag_to_haplotype: a defaultdict(list) barcode -> [(reference_start, haplotype, phaseset), ...]; a missing barcode reads as the empty list"""
+
+    def __init__(self):
+        self.d = DICT(INT, LIST(T3)).fresh("BX_tag_to_haplotype")
+
+    def clouds(self, key):
+        k = to_z3(key)
+        lst = from_z3(self.d.map[k], self.d.val)
+        return VList(T3, lst.arr, z3.If(z3.And(self.d.dom[k], lst.len >= 0), lst.len, 0))
+
+    def sym_getitem(self, eng, st, key):
+        return self.clouds(key)
+
+    def havoc(self, eng, st, name):
+        return self
+
+
+_CLOUDS = CloudMap()
 
 
 class BamWriterModel:
@@ -149,15 +178,54 @@ def only_tags_of(eng, st, a):
     return z3.ForAll([n], z3.Implies(n != to_z3(a), z3.And(dom[n] == dom0[n], mp[n] == mp0[n])))
 
 
-R.contract("attempt_add_phase_information", assumed=True,
-           params={"alignment": REF("Alignment"), "read_to_haplotype": INT, "bxtag_to_haplotype": INT, "linked_read_cutoff": INT, "ignore_linked_read": BOOL},
+def _assignable(eng, st, a, r2h, cutoff, ign):
+    """the alignment's name has an assignment, or (linked reads in use) it carries a barcode one of whose read clouds starts within the cutoff"""
+    t = eng.load_field_raw(st, a, "tags")
+    qn = to_z3(eng.load_field_raw(st, a, "query_name"))
+    rs = to_z3(eng.load_field_raw(st, a, "reference_start"))
+    bx = eng.key_of(eng.str_const("BX"))
+    cl = _CLOUDS.clouds(t.map[bx])
+    i = z3.Int(fresh_name("i"))
+    d = T3.dt.accessor(0, 0)(cl.arr[i]) - rs
+    near = z3.Exists([i], z3.And(0 <= i, i < cl.len, z3.If(d >= 0, d, -d) <= to_z3(cutoff)))
+    return z3.Or(r2h.dom[qn], z3.And(z3.Not(as_bool_(ign)), t.dom[bx], near))
+
+
+def as_bool_(v):
+    return z3.BoolVal(v) if isinstance(v, bool) else v
+
+
+@R.spec
+def assignable(eng, st, a, r2h, cutoff, ign):
+    return _assignable(eng, st, a, r2h, cutoff, ign)
+
+
+_HP, _PC, _PS = "alignment.tags[tag('HP')]", "alignment.tags[tag('PC')]", "alignment.tags[tag('PS')]"
+R.contract("attempt_add_phase_information",
+           params={"alignment": REF("Alignment"), "read_to_haplotype": DICT(INT, T3), "bxtag_to_haplotype": _CLOUDS, "linked_read_cutoff": INT, "ignore_linked_read": BOOL},
            returns=TUPLE(INT, INT, INT),
-           requires=[("not-written-yet", "not alignment.frozen")],
+           requires=[("not-written-yet", "not alignment.frozen"),
+                     ("meaning-of-ASSIGNABLE", "ASSIGNABLE(alignment) == assignable(alignment, read_to_haplotype, linked_read_cutoff, ignore_linked_read)")],
            ensures=[("flag", "result[0] == ite(ASSIGNABLE(alignment), 1, 0)"),
                     ("untagged-means-untouched", "implies(result[0] == 0, forall(k, (k in alignment.tags) == old(k in alignment.tags)) and forall(k, implies(k in alignment.tags, alignment.tags[k] == old(alignment.tags[k]))))"),
                     ("only-phase-tags-set", "forall(k, implies(k != tag('HP') and k != tag('PC') and k != tag('PS'), (k in alignment.tags) == old(k in alignment.tags) and alignment.tags[k] == old(alignment.tags[k])))"),
+                    ("a-read-with-its-own-assignment-carries-exactly-that",
+                     "implies(alignment.query_name in read_to_haplotype, tag('HP') in alignment.tags and tag('PC') in alignment.tags and tag('PS') in alignment.tags and "
+                     + _HP + " == read_to_haplotype[alignment.query_name][0] + 1 and " + _PC + " == read_to_haplotype[alignment.query_name][1] and "
+                     + _PS + " == read_to_haplotype[alignment.query_name][2])"),
+                    ("a-read-tagged-through-its-barcode-gets-a-cloud-within-the-cutoff",
+                     "implies(result[0] == 1 and alignment.query_name not in read_to_haplotype, tag('HP') in alignment.tags and tag('PS') in alignment.tags and tag('PC') not in alignment.tags and "
+                     "exists(i, 0 <= i and i < len(bxtag_to_haplotype[old(alignment.tags[tag('BX')])]) and "
+                     "abs(bxtag_to_haplotype[old(alignment.tags[tag('BX')])][i][0] - alignment.reference_start) <= linked_read_cutoff and "
+                     + _HP + " == bxtag_to_haplotype[old(alignment.tags[tag('BX')])][i][1] + 1 and " + _PS + " == bxtag_to_haplotype[old(alignment.tags[tag('BX')])][i][2]))"),
                     ("still-writable", "not alignment.frozen"), ("frame", "only_tags_of(alignment)")],
-           modifies=["Alignment.tags"], props=["C10"])
+           modifies=["Alignment.tags"],
+           locals={"haplotype_name": INT, "phaseset": INT, "is_tagged": INT, "haplotype": INT, "quality": INT, "reference_start": INT, "tag": INT,
+                   "read_clouds": LIST(T3)},
+           loops={0: dict(index="ci", modifies=["Alignment.tags"], inv=[("no-cloud-so-far-is-near", "forall(i, implies(0 <= i and i < ci, abs(read_clouds[i][0] - alignment.reference_start) > linked_read_cutoff))"),
+                                           ("untouched-so-far", "is_tagged == 0 and forall(k, (k in alignment.tags) == old(k in alignment.tags)) and forall(k, alignment.tags[k] == old(alignment.tags[k])) and only_tags_of(alignment)"),
+                                           ("clouds", "alignment.query_name not in read_to_haplotype and not ignore_linked_read and (len(read_clouds) == 0 or tag('BX') in alignment.tags)")])},
+           props=["C10"])
 
 _FETCH_VALID = ("forall(k, implies(0 <= k and k < len(fetched), fetched[k] is not None)) and "
                 "forall(k, j, implies(0 <= k and k < j and j < len(fetched), fetched[k] is not fetched[j]))")
@@ -170,9 +238,10 @@ _REST = "forall(k, implies({i} <= k and k < len(fetched), untouched(fetched[k]))
 R.contract(
     "run_haplotag#region-pass",
     params={"fetched": LIST(REF("Alignment")), "bam_reader": FetchModel(), "chrom": INT, "start": INT, "end": INT, "variant_table": MaybeTable(), "tag_supplementary": BOOL,
-            "read_to_haplotype": INT, "BX_tag_to_haplotype": INT, "linked_read_distance_cutoff": INT, "ignore_linked_read": BOOL, "bam_writer": REF("BamWriter"),
+            "read_to_haplotype": DICT(INT, T3), "BX_tag_to_haplotype": _CLOUDS, "linked_read_distance_cutoff": INT, "ignore_linked_read": BOOL, "bam_writer": REF("BamWriter"),
             "haplotag_writer": REF("ListFile"), "n_alignments": INT, "n_tagged": INT},
-    requires=[("fetched-valid", _FETCH_VALID), ("nothing-written-yet", "forall(k, implies(0 <= k and k < len(fetched), not fetched[k].frozen))")],
+    requires=[("fetched-valid", _FETCH_VALID), ("nothing-written-yet", "forall(k, implies(0 <= k and k < len(fetched), not fetched[k].frozen))"),
+              ("meaning-of-ASSIGNABLE", "forall(k, implies(0 <= k and k < len(fetched), ASSIGNABLE(fetched[k]) == assignable(fetched[k], read_to_haplotype, linked_read_distance_cutoff, ignore_linked_read)))")],
     ensures=[("every-fetched-alignment-written-once-in-order", _WRITTEN.format(i="len(fetched)")),
              ("only-phase-tags-change-and-ignored-or-unassignable-alignments-carry-none", _DONE.format(i="len(fetched)")),
              ("earlier-output-kept", "forall(k, implies(0 <= k and k < old(len(bam_writer.written)), bam_writer.written[k] is old(bam_writer.written[k])))")],
